@@ -157,6 +157,7 @@ fn worker(args: &[String]) -> i32 {
     let mut fired = BTreeMap::new();
     let mut probes = BTreeMap::new();
     let mut cats = BTreeMap::new();
+    let mut op_kinds = BTreeMap::new();
     let mut strategies: BTreeMap<String, u64> = BTreeMap::new();
     let mut counters: BTreeMap<String, u64> = BTreeMap::new();
     let mut sim_time_ns: u128 = 0;
@@ -181,6 +182,7 @@ fn worker(args: &[String]) -> i32 {
         add_map(&mut fired, &rep.fired);
         add_map(&mut probes, &rep.probes);
         add_map(&mut cats, &rep.outcome_cats);
+        add_map(&mut op_kinds, &rep.op_kinds);
         *strategies.entry(plan.strategy.name()).or_insert(0) += 1;
         for (k, v) in [
             ("ops", rep.ops),
@@ -248,7 +250,7 @@ fn worker(args: &[String]) -> i32 {
     let doc = json!({
         "prop": prop, "profile": profile_name(), "seed": seed, "start": start, "count": count,
         "runs": runs, "wall_s": wall,
-        "fired": map_json(&fired), "probes": map_json(&probes), "outcome_categories": map_json(&cats),
+        "fired": map_json(&fired), "probes": map_json(&probes), "outcome_categories": map_json(&cats), "op_kinds": map_json(&op_kinds),
         "strategies": map_json(&strategies), "counters": map_json(&counters),
         "sim_time_ns": sim_time_ns.to_string(),
         "samples": samples, "violations": violations, "unlisted_violations": unlisted,
